@@ -462,6 +462,26 @@ def r1(rep, w):
                     continue
                 rc.check(want <= cov, '%s::%s' % (im['s'], which),
                          'container impl does not trace its element parameter %s' % sorted(want), f.loc() if f else '')
+    # a cell is traced whatever its borrow flag says: the impl for RefCell<T> reaches the payload's mark / blacken on every path (a try_borrow that
+    # skips a cell which a built-in has borrowed mutably at the moment of the collection leaves everything only that cell holds unmarked)
+    for im in impls:
+        if im['adt'] == 'std::cell::RefCell':
+            for which in ('mark', 'blacken'):
+                f = w.fns.get(im[which])
+                if f is None:
+                    continue
+                through = {bi for bi, t in f.calls() if (t['f'].get('def') or '').endswith('::' + which) or (which == 'blacken' and (t['f'].get('def') or '').endswith('::mark'))}
+                seen, todo, skips = set(), [0], False
+                while todo:
+                    b = todo.pop()
+                    if b in seen or b in through:
+                        continue
+                    seen.add(b)
+                    if f.blocks[b]['t']['t'] == 'return':
+                        skips = True
+                    todo.extend(x for x in f.succs()[b] if x in f.normal_blocks())
+                rc.check(bool(through) and not skips, '%s::%s reaches the payload on every path' % (im['s'], which),
+                         'the collector skips a cell on some path (a borrow test that fails, a flag): whatever only that cell refers to stays unmarked and is freed while in use', f.loc())
     # GcBox::mark / blacken recurse into the payload unless already coloured
     for which in ('mark', 'blacken'):
         f = w.fns.get('yarel::memory::GcBox::<T>::' + which)
